@@ -1,6 +1,6 @@
 (* C04 - readers and loose writers are never disturbed by a concurrent packer.  Statements only. *)
 From Coq Require Import List ZArith NArith.
-From DOS Require Import Generated Base Store StoreProofs StoreLemmas Mono MonoStep Programs PackProofs AddPackProofs ImportProofs MonoProgs.
+From DOS Require Import Generated Base Store StoreProofs StoreLemmas Mono MonoStep Programs PackProofs AddPackProofs ImportProofs MonoProgs Lookup LookupProofs LookupWorld.
 Import ListNotations.
 
 Section C04.
@@ -60,6 +60,17 @@ Theorem C04_reader_during_a_monotone_run : forall s tr p1 p1' p2 p3 p4 k c,
   lookup inflate (fst (run_events s (firstn p1 tr))) (fst (run_events s (firstn p1' tr))) (fst (run_events s (firstn p2 tr)))
                  (fst (run_events s (firstn p3 tr))) (fst (run_events s (firstn p4 tr))) k = Some c.
 Proof. intros s tr p1 p1' p2 p3 p4 k c A AI. exact (reader_during_run H inflate H_inj s tr p1 p1' p2 p3 p4 k c A AI). Qed.
+
+(* the BULK reader under concurrency: the generator (Lookup.lookup_bulk) reads the index through a snapshot w1 pinned at any time, looks
+   at every loose file at an instant of its own (observed_loose: for each key SOME instant between w0 and the refreshed index w3), and
+   re-queries a refreshed index w3; writers and the packer with cleaning take any monotone steps in between.  Every object whose
+   addition had returned at w0 is reported, with the length of its content, whatever the thresholds, the request and the schedule *)
+Theorem C04_bulk_reader_under_concurrency : forall cfg skip w0 w1 w3 ls ks k c,
+  (0 < in_max cfg)%nat -> NoDup ks ->
+  Inv H inflate w0 -> Inv H inflate w1 -> Inv H inflate w3 -> observed_loose H inflate w0 w3 ls ->
+  stored inflate w0 k = Some c -> In k ks ->
+  exists f, In f (fst (lookup_bulk cfg skip (db w1) ls (db w3) ks)) /\ fkey f = k /\ fsize f = Some (length c).
+Proof. exact (bulk_reports_every_stored_object_concurrent H inflate H_inj). Qed.
 End C04.
 
 (* (5) re-loosened cache: one packer run removes a given loose name at most twice (per-pack clean, then clean_storage); the
@@ -76,3 +87,4 @@ Print Assumptions C04_packer_is_monotone.
 Print Assumptions C04_cleaner_is_monotone.
 Print Assumptions C04_plain_import_is_monotone.
 Print Assumptions C04_reader_during_a_monotone_run.
+Print Assumptions C04_bulk_reader_under_concurrency.
